@@ -36,21 +36,23 @@ Section Run.
   Definition of_b44 (i : Bep44.item) : witem :=
     mkItem (Some (Bep44.it_bv i)) (Bep44.it_k i) (Bep44.it_salt i) (Bep44.it_sig i) (Bep44.it_cas i) (Bep44.it_seq i).
 
-  (* bencode.Marshal(nil interface) fails with a non-KRPC error: the put is answered 204 *)
+  (* bencode.Marshal(nil interface) succeeds with the EMPTY byte string (probed on the pinned bencode
+     library): a put without `v` is checked, signed and stored like any other item, its value being the
+     empty string (an immutable one lives under sha1 of the empty string).  A get reply for it carries
+     `seq` (and k / sig) but no `v`, because the reply's `v` field is omitempty. *)
+  Definition put_bv (it : witem) : bytes := match it_bv it with Some bv => bv | None => [] end.
+
   Definition w_put_impl (st : store) (it : witem) (now : Z) : store * put_result :=
-    match it_bv it with
-    | None => (st, PutOtherErr)
-    | Some bv =>
-        let '(r, st1) := Bep44.wrapper_put sha1 edv Bep44.Repaired now (to_b44 it bv) st in
-        let failing := store_fail && Z.eqb (it_seq it mod 7) 3 in
-        let r := match r with Bep44.POk => if failing then Bep44.POther else r | _ => r end in
-        let st' := if failing then st else st1 in
-        (st', match r with
-              | Bep44.POk => PutOk
-              | Bep44.PErr c => PutKrpcErr (mkErr c (bep44_err_text c))
-              | Bep44.POther => PutOtherErr
-              end)
-    end.
+    let bv := put_bv it in
+    let '(r, st1) := Bep44.wrapper_put sha1 edv Bep44.Repaired now (to_b44 it bv) st in
+    let failing := store_fail && Z.eqb (it_seq it mod 7) 3 in
+    let r := match r with Bep44.POk => if failing then Bep44.POther else r | _ => r end in
+    let st' := if failing then st else st1 in
+    (st', match r with
+          | Bep44.POk => PutOk
+          | Bep44.PErr c => PutKrpcErr (mkErr c (bep44_err_text c))
+          | Bep44.POther => PutOtherErr
+          end).
 
   Definition w_get_impl (st : store) (t : bytes) (now : Z) : store * get_result :=
     let '(o, st') := Bep44.wrapper_get exp now t st in
